@@ -98,6 +98,28 @@ class Spy(nrpickler._NonrecursivePickler):
         self.heap[me] = desc
 
 
+class time_limit:
+    """`with time_limit(s):` raises TimeoutError inside the block after s seconds (main thread, SIGALRM):
+    a pickler that does not terminate must end as a reported violation, not as a hanging check"""
+
+    def __init__(self, seconds):
+        self.seconds = seconds
+
+    def __enter__(self):
+        import signal
+
+        def handler(_sig, _frm):
+            raise TimeoutError("no result within %d s" % self.seconds)
+        self.old = signal.signal(signal.SIGALRM, handler)
+        signal.alarm(self.seconds)
+
+    def __exit__(self, *exc):
+        import signal
+        signal.alarm(0)
+        signal.signal(signal.SIGALRM, self.old)
+        return False
+
+
 class RefSpy(dill.Pickler):
     """the STANDARD recursive pickler (dill.Pickler — nothing of edgegraph), instrumented through
     pickle's own extension points `save` / `memoize`: records for every object which objects are
@@ -198,6 +220,16 @@ def describe(V, L, W, caching=None):
             return "V%d" % vid[id(x)]
         if id(x) in lid:
             return "L%d" % lid[id(x)]
+        if isinstance(x, tuple) and len(x) == 2 and isinstance(x[1], tuple) and len(x[1]) == 2 and isinstance(x[1][1], (tuple, type(None))):
+            # a cons list: flattened iteratively (it may be nested deeper than the recursion limit)
+            items, n = [], 0
+            while isinstance(x, tuple) and len(x) == 2:
+                items.append(repr(x[0]))
+                x = x[1]
+                n += 1
+            return "cons/%d/%s/%r" % (n, ",".join(items[:20]), x)
+        if hasattr(x, "__self__") and hasattr(x, "__func__"):
+            return "bound(%s.%s)" % (val(x.__self__), x.__func__.__name__)
         if isinstance(x, (tuple, frozenset, list)):
             tag = shared.setdefault(id(x), len(shared))
             return "%s#%d(%s)" % (type(x).__name__, tag, ",".join(sorted(val(y) for y in x) if isinstance(x, frozenset) else [val(y) for y in x]))
@@ -263,11 +295,12 @@ class C10(Check):
     ]
 
     def witnesses(self):
-        return [("D10", W.D10), ("D7", W.D7), ("D7b", W.D7b)]
+        return [("D10", W.D10), ("D7", W.D7), ("D7b", W.D7b), ("D16", W.D16)]
 
-    def build(self, rng, real, big=False):
+    def build(self, rng, real, big=False, byvalue=False):
         """a graph built through the protocol, plus runtime attributes with shared tuples / frozensets"""
-        lines, outs = gen.random_history(rng, real, all_ops, rng.randint(3, 30 if big else 14), audit=())
+        lines, outs = gen.random_history(rng, real, all_ops, rng.randint(3, 30 if big else 14), audit=(),
+                                         reset_line=("reset byvalue" if byvalue else "reset"))
         nv = len(real.inner.V)
         if nv:
             for _ in range(rng.randint(0, 3)):
@@ -281,6 +314,18 @@ class C10(Check):
                     more.append("attr V%d lst lst:V%d:V%d" % (c, a, b))
                 if rng.random() < 0.25:
                     more.append("attr V%d blob big:%d:%s" % (c, rng.choice([300, 65535, 65536, 70000, 200000]), rng.choice("sb")))
+                if rng.random() < 0.2:
+                    more.append("attr V%d chain cons:%d" % (c, rng.choice([3, 40, 600, 2500])))
+                us_ = [i for i in range(nv) if isinstance(real.inner.V[i], Universe)]
+                if us_ and rng.random() < 0.3:
+                    u_ = rng.choice(us_)
+                    more.append("vertex V u=V%d h=V%d" % (u_, u_))
+                    more.append("vertex SV u=V%d h=V%d" % (u_, u_))
+                    if rng.random() < 0.5:
+                        more.append("attr V%d cb bound:V%d" % (a, u_))
+                if byvalue and rng.random() < 0.6:
+                    more.append("attr V%d tag byval:%d" % (a, rng.randint(0, 2)))
+                    more.append("attr V%d tag2 byval:%d" % (b, rng.randint(0, 2)))
                 for l in more:
                     lines.append(l)
                     outs.append(real.step(l))
@@ -288,10 +333,13 @@ class C10(Check):
 
     def batches(self, tier, rng, real):
         quick = tier == "quick"
-        self.stats10 = dict(graphs=0, layer1_compared=0, layer1_unsupported=0, layer1_unavailable=0, layer1b_compared=0, layer1b_unsupported=0, streams_equal=0, streams_differ=0,
+        self.stats10 = dict(graphs=0, layer1_compared=0, layer1_unsupported=0, layer1_unavailable=0, layer1b_compared=0, layer1b_unsupported=0, byvalue_graphs=0, streams_equal=0, streams_differ=0,
                             loads=0, fresh_loads=0, deep_chains=0)
         for gi in range(120 if quick else 1500):
-            lines, outs = self.build(rng, real, big=(gi % 5 == 0))
+            if getattr(self, "timed_out", False):
+                break
+            byvalue = gi % 4 == 3
+            lines, outs = self.build(rng, real, big=(gi % 5 == 0), byvalue=byvalue)
             inner = real.inner
             if rng.random() < 0.4:
                 for l in ["flag on"] + ["nbrs V%d 1 1 -" % i for i in range(min(4, len(inner.V)))] + ["flag off"]:
@@ -299,9 +347,16 @@ class C10(Check):
                     outs.append(real.step(l))
             root = (inner.V, inner.L, inner.W)
             self.stats10["graphs"] += 1
-            msg = self.check_graph(rng, inner, root, lines, fresh=(gi % (6 if quick else 10) == 0))
+            try:
+                with time_limit(40):
+                    msg = self.check_graph(rng, inner, root, lines, fresh=(gi % (6 if quick else 10) == 0))
+            except TimeoutError:
+                msg = "nrpickler.dumps / loading did not finish within 40 s on this graph (the pickler does not terminate?)"
             if msg:
                 self._viol.append((msg, lines + ["dumps"]))
+                if "did not finish within" in msg or "TimeoutError" in msg:
+                    self.timed_out = True
+                    break               # every further graph of this kind would take the full time limit too
             # layer 1 through the protocol: real event trace vs the Lean queue machine
             sel = rng.choice(["all", "verts"] + (["V0"] if inner.V else []))
             proto = rng.choice([2, 3, 4, 5])
@@ -309,6 +364,11 @@ class C10(Check):
             # layer 1b (black box): the memo skeleton of the BYTES the real nrpickler writes vs the skeleton
             # of the stream the Lean queue machine writes on the heap seen by the standard pickler
             more, mouts = [], []
+            if byvalue:
+                # class / function definitions pickled by value contain cycles through closure cells, which
+                # dill and nrpickler break in their own ways: outside the abstract heap of the model
+                self.stats10["byvalue_graphs"] += 1
+                continue
             try:
                 heap_b, root_b, unsup_b = ref_heap(r, protocol=proto)
             except RecursionError:
@@ -349,7 +409,7 @@ class C10(Check):
             if more:
                 yield lines + more, outs + mouts
         # depth: a chain far longer than the recursion limit
-        for n in ([400] if quick else [400, 3000, 20000]):
+        for n in ([] if getattr(self, "timed_out", False) else [400] if quick else [400, 3000, 20000]):
             m = self.deep_chain(n)
             self.stats10["deep_chains"] += 1
             if m:
